@@ -107,7 +107,9 @@ func FromSubs(s *astisub.Subtitles) (d vtt.Doc, odd string) {
 
 // ToSubs builds a library value from a model with public types only. variant 0 builds it the way the
 // library's own readers do (attribute holders always allocated); variant 1 leaves a cue's / region's
-// InlineStyle nil when it has nothing to say (what the SubRip/TTML readers and user code produce).
+// InlineStyle nil when it has nothing to say (what the SubRip/TTML readers and user code produce); variant 2 puts
+// the cue settings and region attributes on the Style the cue / region refers to and leaves the InlineStyle empty
+// (the writer documents a fall-back to the referenced style for every one of them).
 func ToSubs(d vtt.Doc, variant int) *astisub.Subtitles {
 	s := astisub.NewSubtitles()
 	if d.TSMap != nil {
@@ -122,7 +124,10 @@ func ToSubs(d vtt.Doc, variant int) *astisub.Subtitles {
 	}
 	for _, r := range d.Regions {
 		rg := &astisub.Region{ID: r.ID}
-		if variant == 0 || r != (vtt.Region{ID: r.ID}) {
+		if variant == 2 {
+			rg.InlineStyle = &astisub.StyleAttributes{}
+			rg.Style = &astisub.Style{ID: "rs-" + r.ID, InlineStyle: &astisub.StyleAttributes{WebVTTWidth: r.Width, WebVTTLines: r.Lines, WebVTTRegionAnchor: r.RegionAnchor, WebVTTViewportAnchor: r.ViewportAnchor, WebVTTScroll: r.Scroll}}
+		} else if variant == 0 || r != (vtt.Region{ID: r.ID}) {
 			rg.InlineStyle = &astisub.StyleAttributes{WebVTTWidth: r.Width, WebVTTLines: r.Lines, WebVTTRegionAnchor: r.RegionAnchor, WebVTTViewportAnchor: r.ViewportAnchor, WebVTTScroll: r.Scroll}
 		}
 		s.Regions[r.ID] = rg
@@ -130,7 +135,10 @@ func ToSubs(d vtt.Doc, variant int) *astisub.Subtitles {
 	for _, c := range d.Cues {
 		it := &astisub.Item{StartAt: time.Duration(c.Start) * time.Millisecond, EndAt: time.Duration(c.End) * time.Millisecond, Index: c.ID}
 		it.Comments = append(it.Comments, c.Comments...)
-		if variant == 0 || c.Settings != (vtt.Settings{}) {
+		if variant == 2 {
+			it.InlineStyle = &astisub.StyleAttributes{}
+			it.Style = &astisub.Style{ID: "cs", InlineStyle: &astisub.StyleAttributes{WebVTTAlign: c.Settings.Align, WebVTTLine: c.Settings.Line, WebVTTPosition: c.Settings.Position, WebVTTSize: c.Settings.Size, WebVTTVertical: c.Settings.Vertical}}
+		} else if variant == 0 || c.Settings != (vtt.Settings{}) {
 			it.InlineStyle = &astisub.StyleAttributes{WebVTTAlign: c.Settings.Align, WebVTTLine: c.Settings.Line, WebVTTPosition: c.Settings.Position, WebVTTSize: c.Settings.Size, WebVTTVertical: c.Settings.Vertical}
 		}
 		if c.Region != "" {
@@ -182,10 +190,163 @@ func cloneDoc(d vtt.Doc) vtt.Doc {
 	return o
 }
 
+// ---------- classification of value-triggered reader defects ----------
+
+// A trigger is one field VALUE (or one equivalent spelling) that a known reader defect depends on, with the
+// way to replace it by a neutral value of the same kind. Triggers never judge a case; they only name it.
+type trigger struct {
+	key     string
+	neutral func(cs *Case) bool   // rewrites the case, reports whether anything changed
+	explain func(cs Case) vtt.Doc // optional: what the reader returns for the case if it has exactly this defect
+}
+
+// the three references the reader does replace (a model of the defect, for classification only)
+var knownRefs = strings.NewReplacer("&amp;", "&", "&lt;", "<", "&nbsp;", "\u00a0")
+
+func eachVoice(cs *Case, f func(v string) string) bool {
+	ch := false
+	for k := range cs.Doc.Cues {
+		for l := range cs.Doc.Cues[k].Lines {
+			ln := &cs.Doc.Cues[k].Lines[l]
+			if n := f(ln.Voice); n != ln.Voice {
+				ln.Voice, ch = n, true
+			}
+		}
+	}
+	return ch
+}
+
+var payloadKeywords = []string{"NOTE ", "NOTE\t", "STYLE", "Region: "}
+
+var triggers = []trigger{
+	// "NOTE" followed by a tab, or alone on its line with the text on the next lines: comment lost
+	{"vtt.read.comment-lost.note-not-followed-by-space", func(cs *Case) bool {
+		if cs.Render.NoteSep == "\t" || cs.Render.NoteSep == "\n" {
+			cs.Render.NoteSep = " "
+			return true
+		}
+		return false
+	}, nil},
+	// &gt; &lrm; &rlm; and numeric character references in cue text are returned verbatim
+	{"vtt.read.character-reference-not-decoded", func(cs *Case) bool {
+		if cs.Render.Entity != 0 {
+			cs.Render.Entity = 0
+			return true
+		}
+		return false
+	}, func(cs Case) vtt.Doc {
+		o := cloneDoc(cs.Doc)
+		for k := range o.Cues {
+			for l := range o.Cues[k].Lines {
+				for r := range o.Cues[k].Lines[l].Runs {
+					run := &o.Cues[k].Lines[l].Runs[r]
+					run.Text = knownRefs.Replace(vtt.EscapeAs(run.Text, cs.Render.Entity))
+				}
+			}
+		}
+		return o
+	}},
+	// a character reference in a voice annotation is returned verbatim
+	{"vtt.read.voice-character-reference-not-decoded", func(cs *Case) bool {
+		return eachVoice(cs, func(v string) string { return strings.ReplaceAll(v, "&", "+") })
+	}, func(cs Case) vtt.Doc {
+		o := Case{Doc: cloneDoc(cs.Doc)}
+		eachVoice(&o, func(v string) string { return vtt.EscapeAnnotation(v, cs.Render.Entity) })
+		return o.Doc
+	}},
+	// a voice annotation containing '/' makes the reader drop the whole voice tag
+	{"vtt.read.voice-with-slash-lost", func(cs *Case) bool {
+		return eachVoice(cs, func(v string) string { return strings.ReplaceAll(v, "/", "-") })
+	}, func(cs Case) vtt.Doc {
+		o := Case{Doc: cloneDoc(cs.Doc)}
+		eachVoice(&o, func(v string) string {
+			if strings.Contains(v, "/") {
+				return ""
+			}
+			return v
+		})
+		return o.Doc
+	}},
+	// a payload line that begins with NOTE / STYLE / Region: is taken for a block of that kind
+	{"vtt.read.payload-line-taken-for-block-keyword", func(cs *Case) bool {
+		ch := false
+		for k := range cs.Doc.Cues {
+			for l := range cs.Doc.Cues[k].Lines {
+				ln := &cs.Doc.Cues[k].Lines[l]
+				if len(ln.Runs) == 0 || ln.Voice != "" || len(ln.Runs[0].Tags) > 0 || ln.Runs[0].TS != 0 {
+					continue
+				}
+				t := strings.TrimLeft(ln.Runs[0].Text, " \t")
+				for _, kw := range payloadKeywords {
+					if strings.HasPrefix(t, kw) {
+						ln.Runs[0].Text = "x" + ln.Runs[0].Text
+						ch = true
+						break
+					}
+				}
+			}
+		}
+		return ch
+	}, nil},
+}
+
+// narrow gives a failing case the key of ONE trigger if (a) the case passes once every trigger it contains is
+// neutralised, (b) it still fails with that trigger alone left in and (c) where the defect has an exact model and the
+// reader's answer is at hand (den), that answer is the one the defect predicts. Everything else keeps the generic
+// key, so a different defect cannot hide under a trigger's key.
+func narrow(key string, cs Case, passes func(Case) bool, den func(Case) (string, bool)) string {
+	clone := func(skip int) (Case, int) {
+		alt := cs
+		alt.Doc = cloneDoc(cs.Doc)
+		n := 0
+		for i, t := range triggers {
+			if i != skip && t.neutral(&alt) {
+				n++
+			}
+		}
+		return alt, n
+	}
+	all, n := clone(-1)
+	if n == 0 || !passes(all) {
+		return key
+	}
+	for i, t := range triggers {
+		probe := cs
+		probe.Doc = cloneDoc(cs.Doc)
+		if !t.neutral(&probe) {
+			continue // the case does not contain this trigger
+		}
+		if only, _ := clone(i); !passes(only) {
+			if t.explain != nil && den != nil {
+				if g, ok := den(only); !ok || g != t.explain(only).Denote().String() {
+					continue
+				}
+			}
+			return t.key
+		}
+	}
+	return key
+}
+
 // ---------- read direction ----------
 
-// CheckRead: reader(render(model)) must denote the model.
+// CheckRead: reader(render(model)) must denote the model. A violation is then classified: see narrow.
 func CheckRead(cs Case) (key, msg string, outcome uint64) {
+	key, msg, outcome = checkRead(cs)
+	if key != "" {
+		key = narrow(key, cs, func(alt Case) bool { k, _, _ := checkRead(alt); return k == "" }, func(alt Case) (string, bool) {
+			s, err, pan := safeRead(alt.Doc.Bytes(alt.Render))
+			if err != nil || pan != "" {
+				return "", false
+			}
+			got, odd := FromSubs(s)
+			return got.Denote().String(), odd == ""
+		})
+	}
+	return
+}
+
+func checkRead(cs Case) (key, msg string, outcome uint64) {
 	b := cs.Doc.Bytes(cs.Render)
 	s, err, pan := safeRead(b)
 	want := cs.Doc.Denote().String()
@@ -319,6 +480,14 @@ func renumbered(d vtt.Doc) vtt.Doc {
 // CheckWrite: writer output must denote the model (cues numbered 1..n) to the library reader and to the
 // independent decoder, and satisfy the structural clauses of the property.
 func CheckWrite(d vtt.Doc, variant int) (key, msg string, outcome uint64) {
+	key, msg, outcome = checkWrite(d, variant)
+	if key != "" {
+		key = narrow(key, Case{Doc: d, Render: vtt.DefaultRender()}, func(alt Case) bool { k, _, _ := checkWrite(alt.Doc, variant); return k == "" }, nil)
+	}
+	return
+}
+
+func checkWrite(d vtt.Doc, variant int) (key, msg string, outcome uint64) {
 	s := ToSubs(d, variant)
 	var buf bytes.Buffer
 	var err error
